@@ -78,6 +78,17 @@ CLAIMED['C18'] = dict(
     note='Trusted: path model (components of dot-separated tokens), std::path / std::fs models, M2S, z3. Each witness and counterexample is replayed natively on a real temp directory with the resolver built with the same feature.',
     design='DESIGN.md section 3 / C18')
 
+CLAIMED['C12'] = dict(
+    technique='LEX: logos token rules extracted from lexer.rs as z3 regular expressions, language-equivalence queries against the reference lexical grammar; M2S symbolic execution of the lexical helper functions with token texts constrained by the DFA of the extracted rule',
+    text='Lexical layer only: (1) the languages of the Ident / PackageName / PackagePath / line-comment rules equal the reference lexical grammar on all '
+         'ASCII strings up to the stated length; the #[token] literals are exactly the grammar terminals, each keyword lies in L(id); the skip rule is '
+         'whitespace on screened input; no rule matches the empty string. (2) detect_invalid_input rejects exactly the first forbidden code point; '
+         'block_comment_length = nested-comment reference; helpers::string ends at the first quote. (3) PackagePath::parse / PackageName::parse split '
+         'every token text of the rule language into the documented name / segments / version and reject exactly invalid semver with a span inside '
+         'the token. The recursive-descent productions (acceptance of exactly the EBNF, tree shape, one-token-away rejection) are NOT claimed.',
+    note='Trusted: logos implements longest match with token-over-regex priority for the rules it is given; the reference lexical grammar in specs/c12.py (WIT-style identifier words); semver automaton (validated in C15); z3 re theory.',
+    design='DESIGN.md section 3 / C12')
+
 NOT_APPLICABLE = {
  'C01': 'validity is defined by an external 60 kLoC validator over whole-pipeline output; neither it nor the encoder can be executed symbolically here (DESIGN.md section 4)',
  'C05': 'needs wit-component as reference encoder and the validator subtype relation as comparison; out of reach of symbolic execution (DESIGN.md section 4)',
